@@ -234,7 +234,7 @@ fn endpoints_sub(tier: Tier) -> Sub {
         }
       }
       Err(msg) => {
-        let loc = mc_core::take_panic_location().map(|l| mc_core::short_loc(&l)).unwrap_or_default();
+        let loc = mc_core::loc_of(&msg);
         c.violations.push(("panic".into(), loc, msg, json!({"config": cfg.describe(), "schedule": format!("{:?}", sch)})));
       }
     }
@@ -301,7 +301,7 @@ fn lattice_sub(name: &str, cfg: &Cfg, bytewise: bool) -> Sub {
     let p = match r {
       Ok(p) => p,
       Err(msg) => {
-        let loc = mc_core::take_panic_location().map(|l| mc_core::short_loc(&l)).unwrap_or_default();
+        let loc = mc_core::loc_of(&msg);
         return Visit { key: (usize::MAX, hist.len()), enabled: vec![], nontrivial: true, outcome: 0, violations: vec![("panic".into(), loc, msg)] };
       }
     };
